@@ -59,6 +59,13 @@ function p.stripmarkers(frame)
   return frame:extensionTag('nowiki', 'x') .. frame:preprocess('==zz==')
     .. frame:extensionTag{name = 'nowiki', content = 'y'}
 end
+function p.strdelete(frame)
+  -- reads first, then DELETES members of the shared string library
+  local ok, r = pcall(function() return ("abc"):reverse() .. tostring(#("xy")) end)
+  getmetatable("").__index.reverse = nil
+  getmetatable("").__index.len = nil
+  return tostring(ok) .. tostring(r)
+end
 function p.gfunc(frame)
   local before = tostring(rawget(_G, "helperfn"))
   function helperfn() return 1 end
@@ -81,7 +88,7 @@ CHANNELS = {
     "os_tbl": "nil", "mw_global": "nil", "mw_require": "nil",
     "mw_text": "nil", "mw_ustring": "nil", "package_loaded": "nil",
     "loaddata": "nil", "loadjson": "0", "retained": "1", "required": "1", "redefine": "XY",
-    "gfunc": "nil",
+    "gfunc": "nil", "strdelete": "truecba2",
 }
 
 TEMPLATES = {
